@@ -71,6 +71,8 @@ def bulk_append(e: Any, p: Any) -> tuple | None:
     t = e.args[0]
     if isinstance(t, tuple) and t[0] == "op" and t[1] == "*" and t[2][0] == "tuple" and len(t[2][1]) == 1:
         return (t[2][1][0], t[3])
+    if isinstance(t, tuple) and t[0] == "pure" and t[1] == "itertools.repeat" and len(t[2]) == 2 and not t[3]:
+        return (t[2][0], t[2][1])  # `extend(itertools.repeat(v, k))`
     return None
 
 
